@@ -1,2 +1,3 @@
 pub mod c05;
+pub mod c13;
 pub mod c18;
